@@ -69,3 +69,7 @@ claim("C15", "exhaustive enumeration of start terms x rule sets x limit/hook con
       "apply_rewrites: false => independent fingerprint (nodes, per-class slots/e-nodes/brute-force symmetry count, canonical forms of known invocations) unchanged. Runner::run and run_eqsat under all combinations of iter_limit 0/1/2/5, node_limit 1/10/10000, time_limit 0/unbounded, hooks none/fail@1/fail@2/fail-at-8-nodes: report node count, iteration bound, truth of every stop reason in the final state, and after Saturated one more application changes nothing and every match has equal sides.",
       "Wall-clock time limits other than 0/unbounded are not driven (schedule dependent).",
       "DESIGN.md 5 C15")
+claim("C04", "exhaustive enumeration of rule x slot renaming x variable assignment x presentation, each planted in a fresh real e-graph and the rule applied once",
+      "14 rules (repeated variables, nested nodes, free/bound pattern slots, nested binders) x every injective renaming of the pattern's free slots into a 4 (thorough 5) name pool x every assignment of pattern variables to 7-11 small terms x every presentation (literal; every proper sub-term replaced by every same-free-slot alternative + union, incl. permuted copies that give the child class a symmetry; pairs of replacements). After one apply_rewrites the right-side instance must be represented and eq to the left-side instance. E-graphs with a redundant slot are out of scope and counted.",
+      "Scope restrictions of the statement are enforced by construction and re-checked at run time (redundant slot => skipped).",
+      "DESIGN.md 5 C04")
